@@ -391,8 +391,76 @@ func genCrashCases(r *Rand, tier string) []crashCase {
 			}
 			add(s, mkDoc(), "userfunc", "qual:"+qual)
 		}
+		// qualified calls whose ARGUMENT LIST is drawn from the whole expression grammar: row-scoped and root subqueries,
+		// EXISTS, IN (subquery), AWAIT, and other qualified calls (ONCE inside ONCE, ASYNC inside ONCE, ...), two levels deep —
+		// every strategy evaluates its arguments somewhere (inline, under a memo, in a goroutine), and whatever an argument
+		// registers on the query (post-processors, waits, memo entries) must not block the strategy that is evaluating it.
+		// Positions: select item, WHERE, ON of a (PARALLEL) join, derived table, CTE, UNION operand.
+		nArgs := 130
+		for i := 0; i < nArgs; i++ {
+			call := genNestedCall(r, 2)
+			var s string
+			switch r.Intn(8) {
+			case 0, 1, 2:
+				s = "SELECT id, " + call + " AS v FROM t"
+			case 3:
+				s = "SELECT id FROM t WHERE " + call + " IS NOT NULL"
+			case 4:
+				s = "SELECT x.id FROM t x " + Pick(r, []string{"PARALLEL JOIN", "JOIN", "PARALLEL LEFT JOIN", "LEFT JOIN"}) + " u y ON x.n1 " + Pick(r, cmpOps) + " y.n1 AND " + strings.ReplaceAll(call, "(id", "(x.id") + " IS NOT NULL"
+			case 5:
+				s = "SELECT * FROM (SELECT id, " + call + " AS v FROM t) AS d WHERE d.id > 0"
+			case 6:
+				s = "WITH c AS (SELECT id, " + call + " AS v FROM t) SELECT * FROM c"
+			default:
+				s = "SELECT id FROM u UNION ALL SELECT " + call + " AS id FROM t"
+			}
+			add(s, mkDoc(), "call-arguments")
+		}
 	}
 	return out
+}
+
+// genNestedCall: a (qualified) function call whose arguments may hold subqueries, EXISTS, AWAIT and further qualified calls.
+func genNestedCall(r *Rand, depth int) string {
+	qual := Pick(r, []string{"", "ASYNC.", "SPIN.", "SPINASYNC.", "ONCE.", "ONCE.", "ONCE.", "GLOBAL.", "SCOPED."})
+	arg := func() string {
+		k := r.Intn(12)
+		if depth <= 0 && k >= 8 {
+			k = r.Intn(8)
+		}
+		switch k {
+		case 0:
+			return Pick(r, []string{"id", "n1", "s1", "'lit'", "3", "NULL"})
+		case 1:
+			return "id"
+		case 2: // row subquery over a root table through the back-reference
+			return "(SELECT " + Pick(r, []string{"id", "n1"}) + " FROM `<-.u` ORDER BY id LIMIT 1)"
+		case 3: // row subquery over an array of the row
+			return "(SELECT p FROM items LIMIT 1)"
+		case 4:
+			return "EXISTS (SELECT * FROM items WHERE p > " + Pick(r, []string{"0", "1", "id"}) + ")"
+		case 5:
+			return "id IN (SELECT id FROM `<-.u`)"
+		case 6:
+			return "AWAIT(ASYNC.crashf(id))"
+		case 7:
+			return "(SELECT ASYNC.crashf(p) AS v FROM items LIMIT 1)"
+		case 8, 9:
+			return genNestedCall(r, depth-1)
+		case 10:
+			return "IF(EXISTS (SELECT * FROM `<-.u` WHERE id > 1), " + genNestedCall(r, depth-1) + ", 'small')"
+		default:
+			return "CONCAT(" + genNestedCall(r, depth-1) + ", '!')"
+		}
+	}
+	switch r.Intn(4) {
+	case 0:
+		return qual + "CONCAT(" + arg() + ", '-', " + arg() + ")"
+	case 1:
+		return qual + "IF(" + Pick(r, []string{"id > 1", "EXISTS (SELECT * FROM items WHERE p > 0)", "id IN (SELECT id FROM `<-.u`)"}) + ", " + arg() + ", " + arg() + ")"
+	default:
+		return qual + "crashf(" + arg() + ")"
+	}
 }
 
 type crashFailure struct {
